@@ -349,6 +349,51 @@ def open_holes(rng, nv, faces, k):
     return nv, faces
 
 
+def degenerate_coords(rng, nv, style):
+    """geometrically degenerate (but legal) positions: the property is combinatorial and must not depend on them"""
+    if style == "allzero":
+        return [[0, 0, 0] for _ in range(nv)]
+    if style == "allsame":
+        p = [rng.randint(-5, 5) for _ in range(3)]
+        return [list(p) for _ in range(nv)]
+    if style == "fewpoints":          # many coincident vertices, zero-length edges, zero-area faces
+        pts = [[rng.randint(-3, 3), rng.randint(-3, 3), rng.randint(-3, 3)] for _ in range(rng.randint(2, 4))]
+        return [list(rng.choice(pts)) for _ in range(nv)]
+    if style == "collinear":          # every face has zero area
+        return [[rng.randint(0, 6), 0, 0] for _ in range(nv)]
+    raise ValueError(style)
+
+
+DEGENERATE = ["allzero", "allsame", "fewpoints", "collinear"]
+
+
+def double_cover(nv, faces, coords):
+    """two copies of a bordered surface glued along the border (back sheet reversed): a closed oriented manifold
+    whose two sheets have the same positions, so faces on either side of a rim edge have the same barycenter.
+    None when a face has its three vertices on the border (the two copies would be the same vertex triple)."""
+    de = directed_edges(faces)
+    bverts = set()
+    for (a, b) in de:
+        if (b, a) not in de:
+            bverts.add(a)
+            bverts.add(b)
+    if not bverts or any(all(v in bverts for v in F) for F in faces):
+        return None
+    ren = {}
+    nxt = nv
+    for v in range(nv):
+        if v in bverts:
+            ren[v] = v
+        else:
+            ren[v] = nxt
+            nxt += 1
+    back = [[ren[F[0]], ren[F[2]], ren[F[1]]] for F in faces]
+    c2 = [list(p) for p in coords] + [None] * (nxt - nv)
+    for v in range(nv):
+        c2[ren[v]] = list(coords[v])
+    return nxt, [list(F) for F in faces] + back, c2
+
+
 def lattice_coords(rng, nv, style):
     """distinct integer coordinates; 'random' gives generic edge lengths, 'flat' a tie-heavy layout."""
     pts = set()
@@ -408,6 +453,15 @@ def gen_case(rng, size=None, max_faces=80):
     if regular and nv == base_nv and not any(a.startswith("holes") or a == "delete" for a in applied) and rng.random() < 0.6:
         style = "flat"
     coords = lattice_coords(rng, nv, style)
+    if rng.random() < 0.12:
+        style = rng.choice(DEGENERATE)
+        coords = degenerate_coords(rng, nv, style)
+    if len(faces) <= max_faces // 2 and rng.random() < 0.45:
+        dc = double_cover(nv, faces, coords)
+        if dc is not None and validate(dc[0], dc[1]) is None:
+            nv, faces, coords = dc
+            applied.append("double_cover")
+            style = style + "+two-sided"
     nv, faces, perm = finalize(rng, nv, faces)
     c2 = [None] * nv
     for v in range(nv):
